@@ -59,7 +59,10 @@ def _enc_rows(args):
             iv = None if p["iv"] == "absent" else (bytes(range(7, 7 + ivlen)) if p["iv"] == "block" else b"\x01\x02\x03")
             aad = b"associated-data" if p["aad"] else None
             taglen = p["taglen"] or None
-            for dl in rnd.sample([0, 1, bs - 1, bs, bs + 1, 100], ndata):
+            lens = rnd.sample([0, 1, bs - 1, bs, bs + 1, 100], ndata)
+            if p["mode"] == "GCM" and 0 not in lens:
+                lens.append(0)          # the empty message: authentication is all an AEAD mode does for it
+            for dl in lens:
                 data = bytes((i * 7 + dl) % 256 for i in range(dl))
                 cp = {"alg": None if alg == "NONE" else alg, "mode": None if p["mode"] == "NONE" else p["mode"],
                       "pad": None if p["pad"] == "NONE" else p["pad"], "taglen": taglen}
@@ -117,9 +120,11 @@ def _enc_rows(args):
                     o["bad"].append("C06_decrypt_does_not_invert")
                 if d["reason"] == "GeneralFailure":
                     o["bad"].append("C06_internal_error")
-                if p["mode"] == "GCM" and len(ct) > 0:
+                if p["mode"] == "GCM" and tag:
                     for what in ("ct", "tag", "aad"):
                         t = dict(dreq)
+                        if what == "ct" and len(ct) == 0:
+                            continue
                         if what == "ct":
                             t["data"] = (bytes([ct[0] ^ 1]) + ct[1:]).hex()
                         elif what == "tag":
